@@ -735,6 +735,12 @@ class PyvalColorizer:
 
     def _colorize_ast_re(self, node:ast.Call, state: _ColorizerState) -> None:
         
+        if any(kw.arg is None for kw in node.keywords):
+            # re.compile(pattern, **options): bind_args() leaves '**' arguments out,
+            # they would silently disappear; show the call as it is written.
+            self._colorize_ast_call_generic(node, state)
+            return
+
         try:
             # Can raise TypeError
             args = bind_args(self.RE_COMPILE_SIGNATURE, node)
